@@ -25,6 +25,9 @@ def main():
     ap.add_argument("--tier", default="quick")
     ap.add_argument("--name", default=None)
     ap.add_argument("--skip-confirm", action="store_true")
+    ap.add_argument("--scratch", action="store_true",
+                    help="apply the patch to a scratch worktree of /repo's HEAD and run the checks with GFAPY_REPO pointing at it "
+                         "(used while a long run reads /repo itself); the default applies it to /repo and undoes it")
     a = ap.parse_args()
     prop = a.prop.upper()
     mdir = os.path.abspath(a.mdir)
@@ -67,15 +70,26 @@ def main():
             shutil.rmtree(wt, ignore_errors=True)
 
     checks = (a.checks.split(",") if a.checks else [prop])
-    rc, o = sh(["git", "-C", "/repo", "status", "--porcelain"])
-    assert o.strip() == "", "/repo not clean: " + o
-    rc, o = sh(["git", "-C", "/repo", "apply", patch])
+    target = "/repo"
+    env = None
+    if a.scratch:
+        target = "/tmp/seedscratch_%s" % sid
+        sh(["git", "-C", "/repo", "worktree", "remove", "--force", target])
+        rc, o = sh(["git", "-C", "/repo", "worktree", "add", "--detach", target, "HEAD"])
+        assert rc == 0, o
+        env = dict(os.environ, GFAPY_REPO=target)
+        meta["ran_against"] = "scratch worktree of /repo HEAD (GFAPY_REPO)"
+    else:
+        meta.pop("ran_against", None)
+    rc, o = sh(["git", "-C", target, "status", "--porcelain"])
+    assert o.strip() == "", target + " not clean: " + o
+    rc, o = sh(["git", "-C", target, "apply", patch])
     assert rc == 0, o
     res = meta.setdefault("checks", {})
     try:
         for c in checks:
             t0 = time.time()
-            rc, o = sh(["./check", c, "--tier", a.tier], cwd=VERIF, timeout=7200)
+            rc, o = sh(["./check", c, "--tier", a.tier], cwd=VERIF, timeout=7200, env=env)
             viol = [l for l in o.splitlines() if l.startswith("VIOLATION")]
             res["%s:%s" % (c, a.tier)] = {"exit": rc, "violation_lines": viol[:5], "summary": o.strip().splitlines()[-1:] , "wall_s": round(time.time() - t0, 1)}
             print("check %s %s: exit=%d %s" % (c, a.tier, rc, viol[:2]))
@@ -93,9 +107,13 @@ def main():
                     except Exception:
                         pass
     finally:
-        sh(["git", "-C", "/repo", "checkout", "--", "."])
-        rc, o = sh(["git", "-C", "/repo", "status", "--porcelain"])
-        assert o.strip() == "", "/repo not restored: " + o
+        if a.scratch:
+            sh(["git", "-C", "/repo", "worktree", "remove", "--force", target])
+            shutil.rmtree(target, ignore_errors=True)
+        else:
+            sh(["git", "-C", "/repo", "checkout", "--", "."])
+            rc, o = sh(["git", "-C", "/repo", "status", "--porcelain"])
+            assert o.strip() == "", "/repo not restored: " + o
     meta["detected_by"] = sorted(k for k, v in res.items() if v["exit"] == 1)
     if not meta["detected_by"]:
         meta.pop("caught_by", None)
